@@ -543,7 +543,53 @@ def eval_synthetic(case):
     return out
 
 
-EVALS = {"synthetic": eval_synthetic, "generated": eval_generated, "alternate": eval_alternate, "special": eval_special, "libpass": eval_libpass}
+# ---------------------------------------------------------------------------
+# the PHC field codec exported next to the PHC records (libpass.inspect.phc.phc_b64_encode / phc_b64_decode):
+# unpadded URL-safe base64 (RFC 4648 section 5) of the UTF-8 octets of a text value, and back without loss
+# ---------------------------------------------------------------------------
+_URLSAFE = "ABCDEFGHIJKLMNOPQRSTUVWXYZabcdefghijklmnopqrstuvwxyz0123456789-_"
+PHC_B64_ALPHABET = ("a", "Z", "0", "~", "?", ">", "\u00ff", "\u00e9", "\u20ac", "\u5bc6", "\U0001d11e", "\x00", " ", "=")
+
+
+def _urlsafe_ref(data):
+    bits = "".join(f"{b:08b}" for b in data)
+    bits += "0" * (-len(bits) % 6)
+    return "".join(_URLSAFE[int(bits[i:i + 6], 2)] for i in range(0, len(bits), 6))
+
+
+def phc_b64_values(quick):
+    import itertools
+
+    vals = [""]
+    for n in (1, 2) if quick else (1, 2, 3):
+        vals += ["".join(t) for t in itertools.product(PHC_B64_ALPHABET, repeat=n)]
+    vals += ["x" * n for n in range(3, 20)] + ["\u00e9" * n for n in range(2, 9)] + ["t\u00e1ble", "\u5bc6\u7801", "\u20ac100", "na\u00efve caf\u00e9"]
+    return vals
+
+
+def eval_phc_b64(case):
+    from libpass.inspect import phc as P
+
+    v = case["string"]
+    out = []
+    try:
+        enc = P.phc_b64_encode(v)
+    except Exception as e:  # noqa: BLE001
+        return [(f"C07|phc_b64|encode:raises:{type(e).__name__}", f"phc_b64_encode({v!r}) raised {e!r}")]
+    want = _urlsafe_ref(v.encode("utf-8"))
+    if enc != want:
+        out.append(("C07|phc_b64|encode:value", f"phc_b64_encode({v!r}) = {enc!r}; unpadded URL-safe base64 of its UTF-8 octets is {want!r}"))
+    try:
+        back = P.phc_b64_decode(want)
+    except Exception as e:  # noqa: BLE001
+        out.append((f"C07|phc_b64|decode:raises:{type(e).__name__}", f"phc_b64_decode({want!r}) [= encoding of {v!r}] raised {e!r}"))
+        return out
+    if back != v:
+        out.append(("C07|phc_b64|roundtrip:" + ("ascii" if v.isascii() else "non_ascii"), f"phc_b64_decode(phc_b64_encode({v!r})) = {back!r}"))
+    return out
+
+
+EVALS = {"phc_b64": eval_phc_b64, "synthetic": eval_synthetic, "generated": eval_generated, "alternate": eval_alternate, "special": eval_special, "libpass": eval_libpass}
 
 
 def replay(case):
@@ -603,6 +649,8 @@ def run(ctx):
         cases.append({"part": "special", "hasher": name, "label": label, "hash": h, "password": p, "settings": st})
     for kind, label, s in libpass_strings(ctx.quick, ctx.seed):
         cases.append({"part": "libpass", "kind": kind, "label": label, "string": s})
+    for v in phc_b64_values(ctx.quick):
+        cases.append({"part": "phc_b64", "kind": "phc_b64", "label": f"len{len(v)}:{'ascii' if v.isascii() else 'non_ascii'}:{len(v.encode()) % 3}", "string": v})
     ctx.log(f"{len(cases)} cases")
     shards = [cases[i::512] for i in range(512)]
     acc = core.pmap(work, [{"cases": s} for s in shards if s])
